@@ -79,6 +79,18 @@ CHECKS = {
              "names; z3 proves the bytes equal independent MS-GKDI / NDR64 reference encoders and decode(encode(x)) == x; the response decoder extracts the envelope for every "
              "length residue mod 8 and raises for a failure HRESULT.",
         note="Trusted: interpreter, z3, the reference encoders in props/refs.py. Byte-field lengths and names not listed are outside the claim."),
+    "C01": dict(
+        text="ncrypt_protect_secret -> (optional re-pack to the trailing layout) -> ncrypt_unprotect_secret (and the async twins) are executed end to end, offline, with symbolic "
+             "plaintext content, 64 symbolic root-key bytes and a symbolic clock inside windows containing L2/L1/L0 boundaries, against ideal KDF/AEAD/key-wrap/RNG stubs; on "
+             "every path z3 proves the returned bytes equal the plaintext symbols and no path ends in an exception. Nonce mode, 4 hashes, listed plaintext lengths and SIDs.",
+        note="Trusted: interpreter, z3, the ideal-primitive contracts (incl. no collisions between distinct outputs). Bit-level crypto, clock instants outside the windows "
+             "(composed from C09 and C02), unlisted lengths/SIDs and public-key mode are outside this check's claim."),
+    "C19": dict(
+        text="2..4 consecutive protect calls (identical or different arguments, one unprotect interleaved) are executed in one path against an RNG stub that tags every draw; "
+             "z3 proves that each emitted blob's GCM nonce, content-encryption key (recovered through the key-wrap record) and key-identifier nonce equal the values of draws "
+             "made during that very call, one role per draw, no draw shared between calls.",
+        note="Trusted: interpreter, z3, the stubs. Statistical quality of the OS RNG is outside the technique; distinctness follows from the RNG assumption. Public-key mode "
+             "(ephemeral key) is not covered yet."),
 }
 
 _PENDING = "check not built yet in this round (work in progress; see DESIGN.md for the plan)"
